@@ -1,27 +1,43 @@
-"""C10 cache: generator, oracle extraction (LFU victim), independent reference-cache monitor."""
+"""C10 cache: generator, oracle extraction (LFU victim), independent property monitor.
+
+The monitor states the PROPERTY and nothing more (see `monitor`); everything else the code does (listener
+events, which of several tied LFU entries goes, the exact frequency/recency bookkeeping, `elapsed > ttl` vs `>=`,
+expired entries occupying capacity, in-flight accounting) is pinned by the model-vs-implementation trace comparison."""
 import itertools
 
 PROP = "C10"
 DRIVER = "c10"
 MODEL = "C10"
 MODEL_QUALID = "Model.Cache.run_script"
-FORMAT = ("script [policy 0=LRU 1=LFU 2=FIFO; max_size; ttl_ms (-1 none); shared 0=private(CacheLayer) 1=SharedCacheLayer::builder 2=CacheLayer::shared(); "
-          "n callers; m events; (op a b)*m] op 0=Call a on service b//8 with key b%8, 1=Poll a, 2=Drop a, 3=Advance a ms, "
+FORMAT = ("script [policy 0=LRU 1=LFU 2=FIFO; max_size; ttl (-1 none); sh; n callers; m events; (op a b)*m] "
+          "sh%4: 0=private(CacheLayer) 1=SharedCacheLayer::builder 2,3=CacheLayer::shared(); (sh//4) odd: ttl in microseconds, else milliseconds; "
+          "op 0=Call a on service b//8 with key b%8 (fresh clone of the service), "
+          "5=Call a with key b%128 (<120) on service (b//128)%2, b//256=1: through the long-lived service value itself (no clone), "
+          "1=Poll a, 2=Drop a, 3=Advance a ms, 6=Advance a microseconds (one jump), "
           "4=Complete a b (b>0 Ok with value b, 0 Err, <0 panic); the model additionally reads m oracle values appended by model_input "
           "(key that left a store during each event of the implementation run; consulted only when an LFU insert must evict). "
           "trace: per event [r; value; inner calls started; inner calls in flight; listener events 1=hit 2=miss 4=eviction (+64 model: oracle not a minimal-frequency key); "
-          "bitmask of keys present in store 0; in store 1] with r: -1 no poll, 0 pending, 1 Ok, 2 Err(Inner), 5 panicked, 9 nothing to poll")
+          "bitmask of keys present in store 0; in store 1 (live key instances); bitmask of keys with a stored response in store 0; in store 1 (live response instances)] "
+          "with r: -1 no poll, 0 pending, 1 Ok, 2 Err(Inner), 5 panicked, 9 nothing to poll")
 RULE = ("random histories over 2-5 keys and two services (private or shared store), three policies, max_size 0..4, TTL none/0/short/long with advances "
         "landing exactly on, just before and just after the TTL, overlapping misses (also on one key), ok (unique serial values) / err / panic / never-completing inner "
-        "calls, cancellations; all short histories over a tiny alphabet in thorough; non-trivial = an eviction, an expiry or a hit happened")
+        "calls, cancellations; calls through fresh clones and through one long-lived service value; a few capacities that never fill (1000, 100000); large stores (max_size 5..33, up to 2*max_size+2 keys, "
+        "skewed access so that frequencies and recencies differ, >8 entries) with long sequential histories; TTLs with sub-millisecond parts (999, 1500, 20000 us), "
+        "1 s, 1 h and u64::MAX us with microsecond advances and jumps landing on ttl-1us / ttl / ttl+1us; all short histories over a tiny alphabet in thorough; "
+        "non-trivial = an eviction, an expiry or a hit happened")
 TRUSTED = ["lru 0.16 LruCache (get/push/pop), std HashMap/VecDeque inside LfuStore/FifoStore are modelled as one ordered list; tied to the libraries only by this correspondence run",
-           "presence of keys in a store is observed by counting live instances of the harness's key type (store copies = live - pending misses)",
+           "presence in a store is observed by counting live instances of the harness's key type (store copies = live - pending misses) and of its response type "
+           "(store copies = live - unpolled hits); the monitor uses the response view, the model comparison both",
            "LFU victim among minimal-frequency keys (HashMap iteration order) is taken from the implementation run as an oracle; the model checks it is a minimal-frequency key and the theorems hold for every oracle",
            "poll atomicity: the store mutex is never held across an await"]
-ASSUMPTIONS = ["whole-millisecond instants", "single-threaded deterministic executor: one poll at a time",
-               "max_size >= 1 for the size/victim theorems (0 is exercised by the correspondence run only: LRU turns it into 100, LFU/FIFO into 1)"]
+ASSUMPTIONS = ["whole-microsecond instants", "single-threaded deterministic executor: one poll at a time",
+               "max_size >= 1 for the size/victim theorems (0 is exercised by the correspondence run only: LRU turns it into 100, LFU/FIFO into 1)",
+               "a lookup happens in call() (a call that makes no inner call during call() is a hit); the age of a value is counted from the poll that stored it to the lookup"]
+KNOWN_DEFECT = []   # scripts on which the REAL code violates the property (none found)
 
-REC = 7
+REC = 9
+NK = 120
+U64 = (1 << 64) - 1
 
 
 def header(s):
@@ -29,11 +45,42 @@ def header(s):
     return s[0], s[1], s[2], s[3], s[4], s[5]
 
 
+def mode_of(sh):
+    return sh % 4
+
+
+def ttl_us_of(ttl, sh):
+    if ttl < 0:
+        return -1
+    return ttl if (sh // 4) % 2 == 1 else 1000 * ttl
+
+
 def events(s):
     pol, ms, ttl, sh, n, m = header(s)
+    m = max(m, 0)
     body = list(s[6:6 + 3 * m])
     body += [0] * (3 * m - len(body))
     return [tuple(body[3 * j:3 * j + 3]) for j in range(m)]
+
+
+def call_of(e):
+    """(service, key, reuse) of a Call event, None if the event is not a well-formed Call"""
+    op, a, b = e
+    if op == 0 and 0 <= b < 16:
+        return b // 8, b % 8, 0
+    if op == 5 and 0 <= b < 512 and b % 128 < NK:
+        return (b // 128) % 2, b % 128, b // 256
+    return None
+
+
+def adv_of(e):
+    """microseconds the event advances the clock by"""
+    op, a, b = e
+    if op == 3:
+        return 1000 * min(max(a, 0), 100000)
+    if op == 6:
+        return min(max(a, 0), 10 ** 12)
+    return 0
 
 
 def decode(s, t):
@@ -43,11 +90,21 @@ def decode(s, t):
     return [(e, t[REC * j:REC * j + REC]) for j, e in enumerate(evs)]
 
 
+def bits(x):
+    out, k = [], 0
+    while x > 0:
+        if x & 1:
+            out.append(k)
+        x >>= 1
+        k += 1
+    return out
+
+
 def model_input(s, t):
     """script ++ per-event oracle: the key whose presence bit went 1 -> 0 during the event (-1: none)"""
     d = decode(s, t)
     pol, ms, ttl, sh, n, m = header(s)
-    base = list(s[:6 + 3 * m])
+    base = list(s[:6 + 3 * max(m, 0)])
     if d is None:
         return base
     prev = [0, 0]
@@ -58,7 +115,7 @@ def model_input(s, t):
             lost = prev[st] & ~o[5 + st] if o[5 + st] >= 0 else 0
             if lost and gone < 0:
                 gone = lost.bit_length() - 1
-            prev[st] = o[5 + st]
+            prev[st] = o[5 + st] if o[5 + st] >= 0 else 0
         orc.append(gone)
     return base + orc
 
@@ -71,9 +128,15 @@ def mk(pol, ms, ttl, sh, n, evs):
     return s
 
 
+C, P, D, A, K, W, U = 0, 1, 2, 3, 4, 5, 6
+
+
+def wide(svc, k, reuse=0):
+    return k + 128 * svc + 256 * reuse
+
+
 def corpus():
-    C, P, D, A, K = 0, 1, 2, 3, 4
-    return [
+    out = [
         # miss, store, hit returns the stored serial; second key; eviction by LRU after a use of key 0
         mk(0, 2, -1, 0, 6, [(C, 0, 0), (K, 0, 101), (P, 0, 0), (C, 1, 0), (P, 1, 0), (C, 2, 1), (K, 2, 102), (P, 2, 0),
                             (C, 3, 0), (P, 3, 0), (C, 4, 2), (K, 4, 103), (P, 4, 0), (C, 5, 1), (P, 5, 0)]),
@@ -95,23 +158,66 @@ def corpus():
         mk(0, 2, -1, 2, 3, [(C, 0, 4), (K, 0, 9), (P, 0, 0), (C, 1, 12), (P, 1, 0), (C, 2, 4), (P, 2, 0)]),
         # max_size 0
         mk(2, 0, -1, 0, 3, [(C, 0, 0), (K, 0, 5), (P, 0, 0), (C, 1, 1), (K, 1, 6), (P, 1, 0), (C, 2, 0), (P, 2, 0)]),
+        # ttl 1500 us: hit at 1500 us, miss at 1501 us (a millisecond-truncated test would serve it until 2 ms)
+        mk(0, 2, 1500, 4, 4, [(W, 0, 3), (K, 0, 7), (P, 0, 0), (U, 1500, 0), (W, 1, 3), (P, 1, 0), (U, 1, 0), (W, 2, 3), (K, 2, 8), (P, 2, 0),
+                              (U, 1900, 0), (W, 3, 3), (P, 3, 0)]),
+        # ttl 1 h, jumps to just before / exactly / just after
+        mk(2, 2, 3600000, 1, 4, [(W, 0, 100), (K, 0, 7), (P, 0, 0), (U, 3599999999, 0), (W, 1, 100), (P, 1, 0), (U, 1, 0), (W, 2, 100 + 256), (P, 2, 0),
+                                 (U, 1, 0), (W, 3, 100), (P, 3, 0)]),
+        # ttl = Duration::from_micros(u64::MAX): never expires
+        mk(1, 2, U64, 4, 2, [(W, 0, 5), (K, 0, 7), (P, 0, 0), (U, 10 ** 12, 0), (W, 1, 5), (P, 1, 0)]),
+        # one long-lived service value called repeatedly; another clone updates the key, the entry expires, is evicted
+        mk(0, 1, 10, 2, 8, [(W, 0, wide(0, 9, 1)), (K, 0, 1), (P, 0, 0), (W, 1, wide(0, 9, 1)), (P, 1, 0), (A, 11, 0), (W, 2, wide(0, 9, 1)), (K, 2, 2), (P, 2, 0),
+                            (W, 3, wide(1, 10, 0)), (K, 3, 3), (P, 3, 0), (W, 4, wide(0, 9, 1)), (K, 4, 4), (P, 4, 0), (W, 5, wide(0, 10, 1)), (K, 5, 5), (P, 5, 0),
+                            (W, 6, wide(0, 9, 1)), (P, 6, 0), (W, 7, wide(1, 10, 1)), (P, 7, 0)]),
     ]
+    # 12 entries, LFU: every key hit k times, then new keys force evictions (sampled eviction would pick a wrong victim)
+    evs, i, v = [], 0, 1000
+    for k in range(12):
+        v += 1
+        evs += [(W, i, k), (K, i, v), (P, i, 0)]
+        i += 1
+    for k in range(12):
+        for _ in range(1 + (k * 5) % 4):
+            evs += [(W, i, wide(0, k, k % 2)), (P, i, 0)]
+            i += 1
+    for k in range(12, 18):
+        v += 1
+        evs += [(W, i, k), (K, i, v), (P, i, 0)]
+        i += 1
+    out.append(mk(1, 12, -1, 0, i, evs))
+    return out
 
 
 def random_script(rng, maxlen=40):
     pol = rng.randrange(3)
     ms = rng.choice([1, 1, 2, 2, 2, 3, 3, 4, 0] if rng.random() < 0.5 else [1, 2, 2, 3])
-    ttl = rng.choice([-1, -1, 0, 5, 5, 20, 20, 60])
-    sh = rng.choice([0, 0, 1, 2])
+    if rng.random() < 0.02:
+        ms = rng.choice([1000, 100000])      # never fills: pre-allocation path of the containers
+    sh = rng.choice([0, 0, 1, 2, 3])
+    us = rng.random() < 0.3           # microsecond clock
+    if us:
+        ttl = rng.choice([-1, 0, 999, 1500, 1500, 20000, 1])
+        sh += 4 * rng.choice([1, 3, 5])
+    else:
+        ttl = rng.choice([-1, -1, 0, 5, 5, 20, 20, 60])
+        sh += 8 * rng.choice([0, 0, 1])
     nkeys = rng.choice([2, 3, 3, 4, 5])
-    two_svcs = rng.random() < (0.6 if sh == 0 else 0.4)
+    koff = rng.choice([0, 0, 0, 5, 60, 115]) if rng.random() < 0.5 else 0
+    use_wide = koff > 0 or rng.random() < 0.5
+    two_svcs = rng.random() < (0.6 if sh % 4 == 0 else 0.4)
     L = rng.randint(4, maxlen)
     evs = []
     ncall = 0
     open_ = []       # callers with a live future
     serial = [rng.choice([1, 100, 1000])]
     hot = rng.randrange(nkeys)
-    advs = [1, 1, 2] + ([ttl, ttl, ttl + 1, max(ttl - 1, 1)] if ttl > 0 else [5, 20])
+    if us:
+        advs = [(U, x) for x in ([1, 499, 1000] + ([ttl, ttl, ttl + 1, max(ttl - 1, 1), ttl // 2 + 1] if ttl > 0 else [5, 2000]))]
+    else:
+        advs = [(A, x) for x in ([1, 1, 2] + ([ttl, ttl, ttl + 1, max(ttl - 1, 1)] if ttl > 0 else [5, 20]))]
+        if ttl > 0:
+            advs += [(U, 1000 * ttl - 1), (U, 1), (U, 1000 * ttl + 1)]
 
     def nxt():
         serial[0] += 1
@@ -122,7 +228,10 @@ def random_script(rng, maxlen=40):
         if x < 0.30 or not open_:
             k = hot if rng.random() < 0.35 else rng.randrange(nkeys)
             svc = rng.randrange(2) if two_svcs else 0
-            evs.append((0, ncall, 8 * svc + k))
+            if use_wide:
+                evs.append((W, ncall, wide(svc, k + koff, 1 if rng.random() < 0.5 else 0)))
+            else:
+                evs.append((C, ncall, 8 * svc + k))
             open_.append(ncall)
             # often decide the outcome right away (possibly before the call is polled)
             y = rng.random()
@@ -144,9 +253,10 @@ def random_script(rng, maxlen=40):
             evs.append((2, i, 0))
             open_.remove(i)
         elif x < 0.97:
-            evs.append((3, rng.choice(advs), 0))
+            op, d = rng.choice(advs)
+            evs.append((op, d, 0))
         else:
-            evs.append((rng.choice([0, 1, 2, 4, 5, 7]), rng.choice([-1, ncall + 3, rng.randrange(max(ncall, 1))]), rng.choice([0, 3, 16, -2, 200])))
+            evs.append((rng.choice([0, 1, 2, 4, 5, 7, 8]), rng.choice([-1, ncall + 3, rng.randrange(max(ncall, 1))]), rng.choice([0, 3, 16, -2, 200, 120, 127, 512, 511])))
         if rng.random() < 0.15 and open_:
             # forget callers that are certainly finished to keep polls useful
             open_ = open_[-4:]
@@ -161,18 +271,120 @@ def sequential_script(rng, n=14):
     sh = rng.choice([0, 1, 2])
     nkeys = ms + rng.choice([0, 1, 1, 2])
     nkeys = min(max(nkeys, 2), 8)
+    reuse = rng.random() < 0.4
     evs = []
     v = rng.choice([10, 500])
     for i in range(n):
         k = rng.randrange(nkeys)
         svc = rng.randrange(2) if rng.random() < 0.3 else 0
-        evs.append((0, i, 8 * svc + k))
+        evs.append((W, i, wide(svc, k, 1)) if reuse and rng.random() < 0.7 else (C, i, 8 * svc + k))
         v += 1
         evs.append((4, i, v if rng.random() < 0.9 else 0))
         evs.append((1, i, 0))
         if ttl > 0 and rng.random() < 0.4:
             evs.append((3, rng.choice([1, ttl // 2, ttl, ttl + 1]), 0))
     return mk(pol, ms, ttl, sh, n, evs)
+
+
+def big_script(rng, ncalls=120):
+    """large stores: max_size 5..33, up to 2*max_size+2 keys anywhere in 0..119, skewed access (so that frequencies,
+    recencies and insertion order all differ), mostly closed calls, a few overlapping misses, optional TTL.
+    More than 8 entries are live most of the time: sampled or truncated victim searches show."""
+    pol = rng.randrange(3)
+    ms = rng.choice([5, 8, 9, 12, 16, 16, 33])
+    nkeys = min(NK, ms + rng.choice([1, 2, ms // 2, ms, ms + 2]))
+    keys = rng.sample(range(NK), nkeys) if rng.random() < 0.5 else list(range(nkeys))
+    sh = rng.choice([0, 1, 2])
+    us = rng.random() < 0.25
+    if us:
+        ttl = rng.choice([-1, 1500, 20000, 40500])
+        sh += 4
+        adv = lambda: (U, rng.choice([1, 499, 500, 1000, 1501, max(ttl // 7, 1)]), 0)
+    else:
+        ttl = rng.choice([-1, -1, -1, 40, 200])
+        adv = lambda: (A, rng.choice([1, 2, 5, max(ttl // 6, 1)]), 0)
+    evs, i, v = [], 0, rng.choice([10, 5000])
+    weights = [1.0 / (1 + (j % 7)) ** rng.choice([0, 1, 2]) for j in range(nkeys)]
+    pending = []
+    # fill phase: every key of a prefix once, so the store is full early
+    order = keys[:]
+    rng.shuffle(order)
+    for k in order[:ms]:
+        v += 1
+        evs += [(W, i, wide(0, k, i % 2)), (K, i, v), (P, i, 0)]
+        i += 1
+    while i < ncalls:
+        k = rng.choices(keys, weights)[0]
+        svc = 1 if rng.random() < 0.1 else 0
+        evs.append((W, i, wide(svc, k, 1 if rng.random() < 0.5 else 0)))
+        y = rng.random()
+        if y < 0.85:
+            v += 1
+            evs += [(K, i, v if rng.random() < 0.95 else 0), (P, i, 0)]
+        elif y < 0.95:
+            pending.append(i)          # completes later: overlapping misses
+        else:
+            evs.append((P, i, 0))
+        i += 1
+        if pending and rng.random() < 0.3:
+            j = pending.pop(rng.randrange(len(pending)))
+            v += 1
+            evs += [(K, j, v), (P, j, 0)]
+        if ttl > 0 and rng.random() < 0.15:
+            evs.append(adv())
+    for j in pending:
+        v += 1
+        evs += [(K, j, v), (P, j, 0)]
+    # probe every key once at the end (hits show what is held; at most max_size may hit)
+    for k in keys:
+        evs += [(W, i, wide(0, k, 0)), (P, i, 0)]
+        i += 1
+    return mk(pol, ms, ttl, sh, i, evs)
+
+
+def ttl_script(rng):
+    """one or two keys, TTLs with sub-millisecond parts / 1 s / 1 h / u64::MAX us; lookups at ttl-1us, ttl, ttl+1us after the store,
+    through a fresh clone or the long-lived service value"""
+    pol = rng.randrange(3)
+    ms = rng.choice([1, 2, 3])
+    shm = rng.choice([0, 1, 2])
+    kind = rng.randrange(6)
+    if kind < 3:
+        ttl, sh = rng.choice([999, 1500, 20000, 1, 1001]), shm + 4
+        T = ttl
+    elif kind == 3:
+        ttl, sh = 1000, shm            # 1 s in ms
+        T = 1000 * ttl
+    elif kind == 4:
+        ttl, sh = 3600000, shm         # 1 h
+        T = 1000 * ttl
+    else:
+        ttl, sh = rng.choice([U64, U64 // 1000]), shm + 4
+        T = 10 ** 12
+    evs, i, v = [], 0, 70
+    k = rng.randrange(NK)
+    for _ in range(rng.randint(1, 4)):
+        v += 1
+        evs += [(W, i, wide(0, k, i % 2)), (K, i, v), (P, i, 0)]
+        i += 1
+        d = rng.choice([T - 1, T, T + 1, T // 2, T - T // 1000 - 1, T + 999])
+        d = max(d, 0)
+        if rng.random() < 0.5 and d > 2:
+            cut = rng.randrange(1, d)
+            evs += [(U, cut, 0), (U, d - cut, 0)]
+        else:
+            evs.append((U, d, 0))
+        evs += [(W, i, wide(0, k, rng.randrange(2))), (P, i, 0)]
+        i += 1
+        if rng.random() < 0.5:
+            evs += [(U, rng.choice([1, 1, 2, 999]), 0), (W, i, wide(0, k, rng.randrange(2))), (P, i, 0)]
+            i += 1
+        if rng.random() < 0.3:
+            k2 = (k + 1) % NK
+            v += 1
+            evs += [(W, i, wide(0, k2, 0)), (K, i, v), (P, i, 0)]
+            i += 1
+    return mk(pol, ms, ttl, sh, i, evs)
 
 
 def overlap_script(rng):
@@ -244,14 +456,18 @@ def generate(rng, tier):
     out = []
     if tier == "quick":
         out += [random_script(rng) for _ in range(900)]
-        out += [sequential_script(rng) for _ in range(500)]
-        out += [overlap_script(rng) for _ in range(600)]
+        out += [sequential_script(rng) for _ in range(450)]
+        out += [overlap_script(rng) for _ in range(500)]
+        out += [big_script(rng, rng.choice([60, 120, 200])) for _ in range(260)]
+        out += [ttl_script(rng) for _ in range(250)]
         for pol in range(3):
             out += list(exhaustive(3, pol, 2, 2, 0))
     else:
         out += [random_script(rng, 80) for _ in range(15000)]
         out += [sequential_script(rng, 30) for _ in range(8000)]
         out += [overlap_script(rng) for _ in range(5000)]
+        out += [big_script(rng, rng.choice([60, 120, 200, 300])) for _ in range(1200)]
+        out += [ttl_script(rng) for _ in range(3000)]
         for pol in range(3):
             out += list(exhaustive(5, pol, 2, 2, 0))
             out += list(exhaustive(4, pol, 1, -1, 1))
@@ -260,133 +476,176 @@ def generate(rng, tier):
 
 
 # ----------------------------------------------------------------------------
-# Independent reference cache over the implementation's trace.
-def cap_ref(pol, ms):
-    return (100 if ms == 0 else ms) if pol == 0 else max(1, ms)
+# The property, restated over the implementation's trace alone.
+#
+#  (a) a call that makes no inner call (a hit) answers a key for which a response has been stored, the latest one stored
+#      for that key in that store, stored no longer than the TTL before the lookup; the value it resolves to is that one;
+#  (b) a call makes at most one inner call, in call(); the future of a miss resolves only once the inner call has
+#      completed, with the inner call's own response (Ok: that response — and it counts as stored from then on; Err/panic:
+#      an error, nothing stored); no inner call is made at any other moment;
+#  (c) a store never holds more than max_size responses (max_size >= 1), observed twice: by the live responses, and
+#      black-box — the keys that hit between two stores were all held at once;
+#  (d) when a store evicts an unexpired entry, the store was full, only one unexpired entry goes, and no other unexpired
+#      entry ranks strictly before it under the configured policy, for SOME reading of the policy:
+#        LRU  last use = last hit or last store | last hit or insertion (an update is not a use)
+#        LFU  uses = hits + updates | hits | hits since the last store (all since the key became present)
+#        FIFO first in = became present | last stored
+#      Entries whose TTL has run out may leave at any time (lazily on lookup, swept on insert, ...), alone or with the
+#      victim, and are never counted as competitors of the victim.
+#  Nothing else: listener events, in-flight accounting, which tied entry goes, whether a fresh entry is lost early
+#  (a later call is then simply a miss), `>` vs `>=` at the TTL are left to the model comparison.
+class _Ent:
+    __slots__ = ("val", "at", "ins", "last_store", "last_hit", "hits", "upd", "hits_ls")
+
+    def __init__(self, val, at, j):
+        self.val, self.at, self.ins, self.last_store, self.last_hit = val, at, j, j, -1
+        self.hits = self.upd = self.hits_ls = 0
+
+
+_RANKS = {
+    0: [lambda x: max(x.last_hit, x.last_store), lambda x: max(x.last_hit, x.ins)],
+    1: [lambda x: x.hits + x.upd, lambda x: x.hits, lambda x: x.hits_ls],
+    2: [lambda x: x.ins, lambda x: x.last_store],
+}
+_POLNAME = ["LRU", "LFU", "FIFO"]
 
 
 def monitor(s, t):
     d = decode(s, t)
     if d is None:
         return "malformed or panicking run: %s" % t[:10]
-    pol, ms, ttl, sh, n, m = header(s)
-    cap = cap_ref(pol, ms)
+    pol, ms, ttl_raw, sh, n, m = header(s)
+    pol = pol if pol in (1, 2) else 0
+    shared = mode_of(sh) != 0
+    ttl = ttl_us_of(ttl_raw, sh)
     now = 0
-    ref = [dict(), dict()]     # store -> key -> [value, stored_at, last_use, inserted_seq, freq]
-    state = {}                 # caller -> ("hit", value) | ("miss", store, key) | "done"
+    ref = [dict(), dict()]     # store -> key -> _Ent : responses stored and, as far as observed, still held
+    state = {}                 # caller -> ("hit", value, key) | ("miss", store, key) | "done"
     gate = {}                  # caller -> outcome decided by the script (first Complete wins)
-    prev = [0, 0]
+    window = [set(), set()]    # keys that hit since the last store into the store
+    seen_ok = [True, True]     # the live-response view of the store is usable
     for j, (e, o) in enumerate(d):
         op, a, b = e
-        r, val, started, infl, evt, p0, p1 = o
+        r, val, started, infl, evt, k0, k1, p0, p1 = o
         pres = [p0, p1]
-        if p0 < 0 or p1 < 0:
-            return "event %d: key instance accounting went negative" % j
         valid = 0 <= a < n
-        expect_pres = None
-        if op == 3:
-            now += max(a, 0)
-        if op != 0 and started:
-            return "event %d %s: inner service called outside call()" % (j, e)
-        if op == 0 and valid and 0 <= b < 16 and a not in state:
-            st = 0 if sh else b // 8
-            k = b % 8
+        now += adv_of(e)
+        call = call_of(e) if (op in (0, 5) and valid and a not in state) else None
+        if started and call is None:
+            return "event %d %s: the inner service was called although no new request arrived" % (j, e)
+        for st in (0, 1):
+            if pres[st] < 0:
+                seen_ok[st] = False
+        stored = None          # (store, key, set of keys present before)
+        if call is not None:
+            svc, k, _reuse = call
+            st = 0 if shared else svc
             ent = ref[st].get(k)
-            if (evt & 1) and started:
-                return "event %d %s: a cache hit called the inner service" % (j, e)
+            if started > 1:
+                return "event %d %s: one request called the inner service %d times" % (j, e, started)
             if started == 0:
-                # hit: must be the latest stored value of this key, not older than the TTL
-                if not (evt & 1):
-                    return "event %d %s: no inner call but no Hit event either" % (j, e)
+                # a hit: must be the latest stored value of this key, stored no longer than the TTL ago
                 if ent is None:
-                    return "event %d %s: hit for a key that holds no stored value in store %d" % (j, e, st)
-                if ttl >= 0 and now - ent[1] > ttl:
-                    return "event %d %s: hit returns a value stored %d ms ago, ttl %d" % (j, e, now - ent[1], ttl)
-                state[a] = ("hit", ent[0], k)
-                ent[2] = j
-                ent[4] += 1
+                    return "event %d %s: no inner call, but store %d holds no stored response for key %d" % (j, e, st, k)
+                if ttl >= 0 and now - ent.at > ttl:
+                    return "event %d %s: hit returns a value stored %d us ago, ttl %d us" % (j, e, now - ent.at, ttl)
+                state[a] = ("hit", ent.val, k)
+                ent.last_hit = j
+                ent.hits += 1
+                ent.hits_ls += 1
+                window[st].add(k)
+                if ms >= 1 and len(window[st]) > ms:
+                    return "event %d %s: keys %s of store %d all hit without a store in between: more than max_size %d entries held" % (
+                        j, e, sorted(window[st]), st, ms)
             else:
-                if started != 1:
-                    return "event %d %s: a miss called the inner service %d times" % (j, e, started)
-                if not (evt & 2):
-                    return "event %d %s: inner call without a Miss event" % (j, e)
-                # A miss although the reference cache holds a fresh entry is NOT a violation of C10 (the property
-                # constrains what a hit may return, not when a lookup must hit); it is a deviation from the
-                # model, reported by the correspondence comparison. The reference simply forgets the entry.
-                if ent is not None:
-                    del ref[st][k]          # expired (or dropped early by the implementation): gone after the read
+                # a miss; whether the entry was absent, expired or lost early is not the property's business
                 state[a] = ("miss", st, k)
+                if ent is not None and not seen_ok[st]:
+                    del ref[st][k]
         elif op == 1 and valid:
             stt = state.get(a)
             if stt is None or stt == "done":
-                if r != 9:
-                    return "event %d %s: poll of a finished/absent call returned %d" % (j, e, r)
+                pass
             elif stt[0] == "hit":
-                if r != 1 or val != stt[1]:
-                    return "event %d %s: hit for key %d returned (%d,%d), latest stored value is %d" % (j, e, stt[2], r, val, stt[1])
-                state[a] = "done"
+                if r in (2, 5):
+                    return "event %d %s: a request answered without an inner call resolved to an error (%d)" % (j, e, r)
+                if r == 1:
+                    if val != stt[1]:
+                        return "event %d %s: hit for key %d returned %d, latest stored value is %d" % (j, e, stt[2], val, stt[1])
+                    state[a] = "done"
             else:
                 _, st, k = stt
                 g = gate.get(a)
-                if g is None:
-                    if r != 0:
+                if r in (1, 2, 5):
+                    if g is None:
                         return "event %d %s: miss resolved (%d) before the inner service completed" % (j, e, r)
-                elif g > 0:
-                    if r != 1 or val != g:
+                    if g > 0 and (r != 1 or val != g):
                         return "event %d %s: miss returned (%d,%d), inner response was %d" % (j, e, r, val, g)
-                    # store it in the reference cache
-                    ent = ref[st].get(k)
-                    if ent is not None:
-                        ref[st][k] = [g, now, j, ent[3], ent[4] + 1]
-                        if prev[st] & ~pres[st]:
-                            return "event %d %s: updating a present key evicted another entry" % (j, e)
-                    else:
-                        if len(ref[st]) >= cap:
-                            lost = prev[st] & ~pres[st]
-                            if lost == 0 or lost & (lost - 1):
-                                return "event %d %s: insert into a full store must evict exactly one entry (lost mask %d)" % (j, e, lost)
-                            vk = lost.bit_length() - 1
-                            if vk not in ref[st]:
-                                return "event %d %s: evicted key %d is not in the reference cache" % (j, e, vk)
-                            others = [x for kk, x in ref[st].items() if kk != vk]
-                            ve = ref[st][vk]
-                            if pol == 0 and any(x[2] < ve[2] for x in others):
-                                return "event %d %s: LRU evicted key %d although another entry was used less recently" % (j, e, vk)
-                            if pol == 1 and any(x[4] < ve[4] for x in others):
-                                return "event %d %s: LFU evicted key %d (frequency %d) although another entry has a lower frequency" % (j, e, vk, ve[4])
-                            if pol == 2 and any(x[3] < ve[3] for x in others):
-                                return "event %d %s: FIFO evicted key %d although another entry was inserted earlier" % (j, e, vk)
-                            del ref[st][vk]
-                        ref[st][k] = [g, now, j, j, 1]
+                    if g == 0 and r != 2:
+                        return "event %d %s: inner error came back as %d" % (j, e, r)
+                    if g < 0 and r != 5:
+                        return "event %d %s: inner panic came back as %d" % (j, e, r)
                     state[a] = "done"
-                elif g == 0:
-                    if r != 2:
-                        return "event %d %s: inner error must come back as Inner, got %d" % (j, e, r)
-                    state[a] = "done"
-                else:
-                    if r != 5:
-                        return "event %d %s: inner panic, got %d" % (j, e, r)
-                    state[a] = "done"
+                    if g > 0:
+                        stored = (st, k, g)
         elif op == 2 and valid:
             if a in state:
                 state[a] = "done"
         elif op == 4 and valid:
             gate.setdefault(a, b)
-        # the store holds exactly the reference cache's keys (errors, drops, advances change nothing)
+
+        # --- what left the stores during this event (live-response view) ---
         for st in (0, 1):
-            want = sum(1 << k for k in ref[st] if k < 8)
-            if pres[st] != want:
-                # Entries the implementation no longer holds are forgotten by the reference as well (losing an
-                # entry early is not a C10 violation; the model comparison reports it). Entries it holds beyond the
-                # reference can only follow a wrong eviction, which the victim clauses above have already reported.
-                for k in [k for k in ref[st] if k < 8 and not (pres[st] >> k) & 1]:
-                    del ref[st][k]
+            if not seen_ok[st]:
+                continue
+            before = ref[st]
+            lost = [k for k in before if not (pres[st] >> k) & 1]
+            is_store = stored is not None and stored[0] == st
+            if is_store:
+                _, k, g = stored
+                lost = [x for x in lost if x != k]
+                # entries whose TTL has run out (>=: either reading of the boundary) may go any time
+                expd = [x for x in lost if ttl >= 0 and now - before[x].at >= ttl]
+                vic = [x for x in lost if x not in expd]
+                if ms >= 1 and vic:
+                    remaining = len(before) - len(expd) + (0 if k in before else 1)
+                    if remaining <= ms:
+                        return "event %d %s: storing key %d evicted unexpired key %d although store %d was not full (%d entries, max_size %d)" % (
+                            j, e, k, vic[0], st, len(before) - len(expd), ms)
+                    if len(vic) > 1:
+                        return "event %d %s: storing key %d evicted %d unexpired entries (keys %s)" % (j, e, k, len(vic), vic)
+                    v = vic[0]
+                    comp = [before[x] for x in before if x != v and x != k and x not in expd]
+                    ok = any(all(rank(before[v]) <= rank(y) for y in comp) for rank in _RANKS[pol])
+                    if not ok:
+                        return "event %d %s: %s evicted key %d of store %d although another unexpired entry ranks before it under every reading of the policy" % (
+                            j, e, _POLNAME[pol], v, st)
+            for x in lost:
+                del before[x]
+            if is_store:
+                _, k, g = stored
+                ent = before.get(k)
+                if (pres[st] >> k) & 1:
+                    if ent is None:
+                        before[k] = _Ent(g, now, j)
+                    else:
+                        ent.val, ent.at, ent.last_store = g, now, j
+                        ent.upd += 1
+                        ent.hits_ls = 0
+                elif ent is not None:
+                    del before[k]
+                window[st] = set()
             if ms >= 1 and bin(pres[st]).count("1") > ms:
                 return "event %d %s: store %d holds %d entries, max_size %d" % (j, e, st, bin(pres[st]).count("1"), ms)
-        pend = sum(1 for x in state.values() if x != "done" and x[0] == "miss")
-        if infl != pend:
-            return "event %d %s: %d inner calls in flight, %d misses pending" % (j, e, infl, pend)
-        prev = pres
+        # without the live-response view: black-box bookkeeping only (every Ok response of a miss counts as stored)
+        if stored is not None and not seen_ok[stored[0]]:
+            st, k, g = stored
+            ent = ref[st].get(k)
+            if ent is None:
+                ref[st][k] = _Ent(g, now, j)
+            else:
+                ent.val, ent.at, ent.last_store = g, now, j
+            window[st] = set()
     return None
 
 
@@ -406,43 +665,69 @@ def nontrivial(s, t):
 
 def classify(s, t):
     pol, ms, ttl, sh, n, m = header(s)
-    out = [["lru", "lfu", "fifo"][pol % 3], "max_size_%d" % ms,
-           "ttl_%s" % ("none" if ttl < 0 else ("zero" if ttl == 0 else "finite")),
-           "store_%s" % ("private" if sh == 0 else "shared")]
+    tu = ttl_us_of(ttl, sh)
+    out = [["lru", "lfu", "fifo"][pol % 3],
+           "max_size_%s" % (ms if ms <= 4 else ("5_8" if ms <= 8 else ("9_16" if ms <= 16 else ("17_33" if ms <= 33 else "huge")))),
+           "ttl_%s" % ("none" if tu < 0 else ("zero" if tu == 0 else ("submilli" if tu % 1000 else ("ge_1s" if tu >= 10 ** 6 else "finite")))),
+           "store_%s" % ("private" if mode_of(sh) == 0 else "shared")]
     d = decode(s, t)
     if d:
         prev = [0, 0]
         seen = set()
         maxinfl = 0
+        maxheld = 0
+        keys = set()
+        reused = {}
         for (e, o) in d:
+            c = call_of(e) if e[0] in (0, 5) else None
+            if c:
+                keys.add(c[1])
+                if c[2]:
+                    reused[c[0]] = reused.get(c[0], 0) + 1
             if o[4] & 1:
                 seen.add("saw_hit")
-            if e[0] == 0 and o[2]:
+            if e[0] in (0, 5) and o[2]:
                 seen.add("saw_miss")
             if o[0] == 2:
                 seen.add("saw_inner_err")
             if o[0] == 5:
                 seen.add("saw_panic")
-            lost = (prev[0] & ~o[5]) | (prev[1] & ~o[6])
+            lost = (prev[0] & ~o[5]) | (prev[1] & ~o[6]) if o[5] >= 0 and o[6] >= 0 else 0
             if lost and e[0] == 1:
                 seen.add("saw_eviction")
-            if lost and e[0] == 0:
+                if bin(prev[0]).count("1") > 8 or bin(prev[1]).count("1") > 8:
+                    seen.add("eviction_from_more_than_8")
+            if lost and e[0] in (0, 5):
                 seen.add("saw_expiry")
             if e[0] == 2:
                 seen.add("has_cancel")
+            if e[0] == 6 and e[1] % 1000:
+                seen.add("submilli_advance")
             if o[6]:
                 seen.add("second_store_used")
             maxinfl = max(maxinfl, o[3])
-            prev = [o[5], o[6]]
+            maxheld = max(maxheld, bin(max(o[5], 0)).count("1"), bin(max(o[6], 0)).count("1"))
+            prev = [max(o[5], 0), max(o[6], 0)]
         if maxinfl >= 2:
             seen.add("overlapping_misses")
+        if any(v >= 2 for v in reused.values()):
+            seen.add("one_service_value_called_repeatedly")
+        if len(keys) > 8:
+            seen.add("more_than_8_keys")
+        if maxheld > 8:
+            seen.add("held_more_than_8")
         out += sorted(seen)
     return out
 
 
 def shrink(s):
-    """candidate smaller scripts: remove one event"""
+    """candidate smaller scripts: drop a closed call (call+complete+poll of one caller), drop one event"""
     pol, ms, ttl, sh, n, m = header(s)
     evs = events(s)
+    if len(evs) > 30:
+        for c in sorted({e[1] for e in evs if e[0] in (0, 5)}, reverse=True):
+            rest = [e for e in evs if not (e[0] in (0, 1, 2, 4, 5) and e[1] == c)]
+            if len(rest) < len(evs):
+                yield mk(pol, ms, ttl, sh, n, rest)
     for i in range(len(evs)):
         yield mk(pol, ms, ttl, sh, n, evs[:i] + evs[i + 1:])
